@@ -5,6 +5,7 @@ import ast
 
 from kfv import defflags
 from kfv.core import Ctx
+from kfv.rules import memo_rules as MEMO
 from kfv.model import norm
 from kfv.rules import coh_rules as C
 from kfv.rules import precond_rules as R
@@ -52,3 +53,5 @@ def run(ctx: Ctx) -> None:
     ctx.do(TR.rule_alias_grad)
     ctx.do(TR.rule_gpt_layer)
     ctx.do(TR.rule_clip_shard)
+    ctx.do(MEMO.rule_memo)
+    ctx.do(C.rule_tab_sd)
